@@ -349,11 +349,11 @@ def gen_cases(R):
 
     def small_shape():
         sh = [rng.randrange(1, 3), rng.randrange(1, 6), rng.randrange(1, 6), rng.randrange(1, 6)]
-        if rng.random() < 0.12:            # one long axis (10..33): more blocks per axis
+        if rng.random() < 0.25:            # one long axis (10..33): more blocks per axis
             sh[rng.randrange(1, 4)] = rng.randrange(10, 34)
         return tuple(sh)
     n_avg = 1600 if quick else 40000
-    n_sm = 700 if quick else 25000
+    n_sm = 900 if quick else 25000
     # averaging: all 8 factor triples x 5 dtypes x 5 outside values, cycling
     combos = list(itertools.product(itertools.product([1, 2], repeat=3), NG, OUTSIDE))
     rng.shuffle(combos)
